@@ -275,3 +275,52 @@ class SendLoopNeverEarly(FnCheck):
 
     def post(self, ex, st0, st, outcome, b):
         pass
+
+
+# ---------------------------------------------------------------------------------------------------------------
+# which parameter set a message is scheduled with: SOAP-over-UDP prescribes MULTICAST_UDP_REPEAT (4) for datagrams to
+# the multicast group and UNICAST_UDP_REPEAT (2) for unicast answers
+import ast as _ast   # noqa: E402
+from pyvc.api import ScanCheck   # noqa: E402
+
+
+@register
+class RepeatParamsPerDestination(ScanCheck):
+    id = 'C15.repeat_params_per_destination'
+    prop = 'C15'
+    doc = ('every call of NetworkingThread.add_outbound_message in the discovery implementation schedules datagrams '
+           'to the multicast group with MULTICAST_REPEAT_PARAMS and datagrams to a unicast address with '
+           'UNICAST_REPEAT_PARAMS (exhaustive scan of the call sites); the two parameter sets carry the repeat counts '
+           '4 and 2 of SOAP-over-UDP')
+
+    def scan(self, repo):
+        out = []
+        mod = repo.module('sdc11073.wsdiscovery.wsdimpl')
+        nt = repo.module(MOD)
+        sites = 0
+        for func in [n for n in _ast.walk(mod.tree) if isinstance(n, (_ast.FunctionDef, _ast.AsyncFunctionDef))]:
+            k = 0
+            for n in _ast.walk(func):
+                if not (isinstance(n, _ast.Call) and isinstance(n.func, _ast.Attribute) and n.func.attr == 'add_outbound_message'):
+                    continue
+                sites += 1
+                k += 1
+                args = list(n.args) + [kw.value for kw in n.keywords]
+                named = {kw.arg: kw.value for kw in n.keywords}
+                addr = named.get('addr', n.args[1] if len(n.args) > 1 else None)
+                params = named.get('repeat_params', n.args[3] if len(n.args) > 3 else None)
+                a_txt = _ast.unparse(addr) if addr is not None else '?'
+                p_txt = _ast.unparse(params) if params is not None else '?'
+                multicast = a_txt.split('.')[-1] == 'MULTICAST_IPV4_ADDRESS'
+                p_name = p_txt.split('.')[-1]
+                ok = p_name == ('MULTICAST_REPEAT_PARAMS' if multicast else 'UNICAST_REPEAT_PARAMS')
+                out.append((f'site.{func.name}.{k}', ok, {'function': func.name, 'line': n.lineno, 'addr': a_txt, 'params': p_txt}))
+        out.append(('call_sites_found', sites >= 6, {'sites': sites}))
+        # repeat counts of the two code-defined parameter sets (second field of _UdpRepeatParams)
+        for name, want in (('MULTICAST_REPEAT_PARAMS', 4), ('UNICAST_REPEAT_PARAMS', 2)):
+            c = nt.constants.get(name)
+            val = None
+            if isinstance(c, _ast.Call) and len(c.args) >= 2 and isinstance(c.args[1], _ast.Constant):
+                val = c.args[1].value
+            out.append((f'repeat_count.{name}', val == want, {'value': val, 'soap_over_udp': want}))
+        return out
